@@ -442,21 +442,30 @@ async fn h2_send_body(s: &mut h2::SendStream<Bytes>, mut n: u64, end: bool, wait
 }
 
 async fn exchange_h2(v: &Vector, client: DuplexStream, wait: Duration) -> Obs {
+    exchange_h2_seq(&[v], client, wait).await.pop().unwrap()
+}
+
+/// the requests of `vs` one after the other on ONE HTTP/2 connection (Services.tla SessionExpect: each is served as if alone)
+async fn exchange_h2_seq(vs: &[&Vector], client: DuplexStream, wait: Duration) -> Vec<Obs> {
     let mut o = Obs::default();
     let (mut send, conn) = match tokio::time::timeout(wait, h2::client::handshake(client)).await {
         Ok(Ok(x)) => x,
         Ok(Err(e)) => {
             o.reset = Some(format!("handshake: {}", e));
-            return o;
+            return vec![o];
         }
         Err(_) => {
             o.notes.push("no HTTP/2 handshake".into());
-            return o;
+            return vec![o];
         }
     };
     let conn_task = tokio::spawn(async move {
         let _ = conn.await;
     });
+    let mut outs = vec![];
+    for v in vs {
+    let v: &Vector = v;
+    let mut o = Obs::default();
     let out = async {
         if !matches!(tokio::time::timeout(wait, std::future::poll_fn(|cx| send.poll_ready(cx))).await, Ok(Ok(()))) {
             o.reset = Some("connection not ready".into());
@@ -558,14 +567,25 @@ async fn exchange_h2(v: &Vector, client: DuplexStream, wait: Duration) -> Obs {
         }
     };
     out.await;
+    outs.push(o);
+    }
     drop(send);
     conn_task.abort();
     let _ = conn_task.await;
-    o
+    outs
 }
 
 // ---------------------------------------------------------------------------------------------
 // ping / speedtest / tunnel host scenarios (in-memory only)
+
+async fn run_inmem_seq(vs: &[&Vector], core: Option<Arc<Core>>, wait: Duration) -> Vec<Obs> {
+    let (client, server) = tokio::io::duplex(1 << 16);
+    let door = start_door(vs[0], core, server);
+    let o = exchange_h2_seq(vs, client, wait).await;
+    door.abort();
+    let _ = door.await;
+    o
+}
 
 async fn run_inmem(v: &Vector, core: Option<Arc<Core>>, wait: Duration) -> Obs {
     let (client, server) = tokio::io::duplex(1 << 16);
@@ -1194,6 +1214,7 @@ fn main() {
     // ----------------------------------------------------------------------------- vectors
     let mut n_vec = 0u64;
     let mut rp_failures = 0u32;
+    let mut seq_pool: Vec<Vector> = vec![];
     for f in &vec_files {
         for raw in read_tagged(f, "VEC") {
             let v = Vector::parse(&raw);
@@ -1307,6 +1328,9 @@ fn main() {
             }
 
             // in-memory only: virtual time
+            if v.proto == "h2" && (v.host == "speedtest" || v.host == "ping") && seq_pool.len() < 4000 {
+                seq_pool.push(Vector::parse(&raw));
+            }
             let fwd = ScriptedForwarder::new(TcpPlan::Other, MuxPlan::Ok, MuxPlan::Ok);
             let res = catch(|| {
                 rt_paused.block_on(async {
@@ -1360,6 +1384,51 @@ fn main() {
         }
     }
     rep.count("vectors", n_vec);
+
+    // ----------------------------------------------------------------------------- several requests on one session
+    // Services.tla SessionExpect: on a multiplexed session every request is served as if it were alone. One request of
+    // every outcome class (per host) is followed, on the same HTTP/2 connection, by a request with a definite outcome.
+    if only.is_none() {
+        // (the ping handler answers one request and closes the session gracefully: by design, not driven here)
+        for host in ["speedtest"] {
+            let mine: Vec<&Vector> = seq_pool.iter().filter(|v| v.host == host).collect();
+            let second = mine.iter().find(|v| v.expect.len() == 1 && ((v.expect[0]["k"] == "download" && v.expect[0]["n"].as_u64().unwrap_or(0) > 0 && v.max_download() <= 2 * MIB) || (host == "ping" && v.expect[0]["k"] == "empty")));
+            let Some(second) = second else { rep.note(format!("no request with a definite outcome on host {}: sessions of several requests not driven", host)); continue; };
+            let mut seen: std::collections::BTreeSet<String> = Default::default();
+            for first in mine.iter() {
+                // one representative per (method, outcome set, upload or not)
+                let key = format!("{}|{:?}|{}", first.method, first.expect.iter().map(|o| format!("{}{}", o["k"].as_str().unwrap_or(""), if o["n"].as_u64().unwrap_or(0) > 0 { "+" } else { "" })).collect::<Vec<_>>(), first.cl.is_some());
+                if first.max_download() > 2 * MIB || !seen.insert(key) { continue; }
+                let fwd = ScriptedForwarder::new(TcpPlan::Other, MuxPlan::Ok, MuxPlan::Ok);
+                let res = catch(|| rt_paused.block_on(async {
+                    set_forwarder(Some(fwd.clone()));
+                    let o = run_inmem_seq(&[*first, *second], None, WAIT).await;
+                    set_forwarder(None);
+                    o
+                }));
+                rep.eval();
+                rep.count("session_sequences", 1);
+                rep.nontrivial(format!("seq|{}|{}|{}", host, first.id, second.id));
+                let detail = |obs: &Vec<Obs>| json!({"kind": "session-sequence", "first": first.desc(), "second": second.desc(), "observed": obs.iter().map(|o| o.to_json()).collect::<Vec<_>>()});
+                match res {
+                    Err(p) => rep.violation_with(format!("services:{}:h2:sequence:panic", host), format!("panic: {}", p), || detail(&vec![])),
+                    Ok(obs) => {
+                        for (k, (v, o)) in [*first, *second].iter().zip(obs.iter()).enumerate() {
+                            if o.notes.iter().any(|n| n.contains("not representable")) { break; }
+                            if !v.expect.iter().any(|e| realises(e, o)) {
+                                rep.violation_with(format!("services:{}:h2:sequence:request{}:{}", host, k + 1, issue_of(v, o)),
+                                    format!("request {} of a session of two: observed status {:?}, {} body bytes (reset {:?}) - not among the outcomes Services.tla allows for this request", k + 1, o.status, o.body_len, o.reset), || detail(&obs));
+                                break;
+                            }
+                        }
+                        if obs.len() < 2 && !obs.iter().any(|o| o.notes.iter().any(|n| n.contains("not representable"))) {
+                            rep.violation_with(format!("services:{}:h2:sequence:second-not-served", host), "the session ended before its second request", || detail(&obs));
+                        }
+                    }
+                }
+            }
+        }
+    }
 
     // ----------------------------------------------------------------------------- back-pressure schedules
     let mut n_pat = 0u64;
